@@ -1,13 +1,11 @@
 """C18 - key and PEM encodings round-trip and match standard formats.
 
-Three harnesses:
+Two harnesses:
   h_keyenc      key encoders, br_skey_decoder, br_pkey_decoder vs OpenSSL / br_x509_decoder
   h_keyenc_pem  br_pem_encode / br_pem_decoder vs PEM_write_bio and a documented-behaviour model
-  h_keyenc_ub   two one-call probes (memcpy/memmove with a null pointer and length 0)
 """
 import os
 from vrun import Job
-import vbuild
 
 LEVEL = 'exploration'
 RULE = ('keys: the 7 fixture keys (fixtures/keys, made by fixtures/gen_keys.sh) plus synthetic RSA structures '
@@ -29,15 +27,13 @@ ASSUMPTIONS = [
     'behaviour the headers are silent about is executed under the sanitizers but not judged: names longer than 127, '
     '"-----BEGIN " followed by an empty line, non-zero padding bits in the last quartet, whitespace-only lines '
     'after a padded quartet, whitespace before the END banner, pushing more data after a decoder reported an error',
-    'h_keyenc is linked with $VERIF_REPO/src/x509/asn1enc.c recompiled with -fno-sanitize=nonnull-attribute because '
-    'br_asn1_encode_uint calls memcpy(dst, NULL, 0) on every RSAPrivateKey; that call is reported by h_keyenc_ub',
 ]
 EVAL = ['cases', 'cases_rsa', 'cases_ec']
 DISTINCT = ['rsa_shape', 'ec_shape', 'pem_cfg', 'pem_dec_cfg', 'pem_bad_kind', 'pem_multi_cfg', 'banner_cfg']
 REQUIRED = ['fixture_keys', 'cmp_lenquery', 'cmp_enc_bytes', 'cmp_skey_rsa', 'cmp_skey_ec', 'cmp_keypem',
             'cmp_pkey_rsa_spki', 'cmp_pkey_rsa_raw', 'cmp_pkey_ec_spki', 'cmp_ec_ossl_decodes_ours',
             'cmp_pem_enc', 'cmp_pem_enc_inplace', 'cmp_pem_dec', 'cmp_pem_banner', 'cmp_pem_bad',
-            'cmp_pem_trunc', 'cmp_pem_notbanner', 'cmp_pem_multi', 'multi_with_bad_object', 'probe_runs']
+            'cmp_pem_trunc', 'cmp_pem_notbanner', 'cmp_pem_multi', 'multi_with_bad_object']
 
 HERE = os.path.dirname(os.path.dirname(os.path.abspath(__file__)))
 FIX = os.path.join(HERE, 'fixtures', 'keys')
@@ -49,30 +45,17 @@ def jobs(tier, seed):
     nrsa, nec = (200, 96) if quick else (5000, 2400)
     variants, nbad, nmulti = (2, 5400, 1600) if quick else (16, 180000, 60000)
     to = 300 if quick else 1800
-    asn1 = os.path.join(vbuild.REPO, 'src', 'x509', 'asn1enc.c')
     js = []
     for i in range(n):
-        # the sanitizer option must come after the flavour's ldflags (one compile+link command),
-        # hence its place in `libs`
         js.append(Job('key%d' % i, 'h_keyenc',
                       ['--seed', seed, '--worker', i, '--nworkers', n, '--rsa', nrsa, '--ec', nec,
                        '--fixtures', FIX],
-                      flavour='asan', libs=['-lcrypto', '-fno-sanitize=nonnull-attribute'],
-                      extra_src=[asn1], timeout=to))
+                      flavour='asan', libs=['-lcrypto'], timeout=to))
         js.append(Job('pem%d' % i, 'h_keyenc_pem',
                       ['--seed', seed, '--worker', i, '--nworkers', n, '--maxlen', 2000,
                        '--variants', variants, '--bad', nbad, '--multi', nmulti],
                       flavour='asan', libs=['-lcrypto'], timeout=to))
-    js.append(Job('ub-rsa', 'h_keyenc_ub', ['--mode', 'rsa'], flavour='asan', timeout=60))
-    js.append(Job('ub-pem', 'h_keyenc_ub', ['--mode', 'pem'], flavour='asan', timeout=60))
     return js
-
-
-def on_job_done(job, rc, out, err, res):
-    # the probes abort inside UBSan before printing their counters; count the run itself
-    if job.harness == 'h_keyenc_ub':
-        res.stat('probe_runs', 1)
-    return False
 
 
 def coverage_extra(res, tier):
